@@ -12,7 +12,7 @@ use chain_extension::generate_chain_extension_method;
 use chain_method::generate_chain_method;
 use method_impl::generate_method_impl;
 use types::MethodAttrs;
-use utils::build_combined_where_clause;
+use utils::{build_combined_where_clause, remove_param_attrs};
 
 pub(crate) fn proxy(attr: TokenStream, input: TokenStream) -> TokenStream {
     match proxy_impl(attr, input) {
@@ -82,6 +82,9 @@ fn proxy_impl(attr: TokenStream, input: TokenStream) -> Result<TokenStream, Erro
             if !chain_impl.is_empty() {
                 chain_method_impls.push(chain_impl);
             }
+
+            // All forms are generated; the trait definition must not carry our attributes.
+            remove_param_attrs(&mut method.sig);
         }
     }
 
